@@ -304,6 +304,7 @@ fn main() {
     macro_rules! add {
         ($U:ty, $I:ty) => {
             jobs_for::<$U, $I>(&mut jobs);
+            checks::siblings::topic_jobs::<$U, $I>(&mut jobs, checks::siblings::Group::AddSub, 150, FACTOR);
         };
     }
     for_all_cfgs!(add);
@@ -311,7 +312,7 @@ fn main() {
     runner::main(
         Property {
             id: "C01",
-            rule: "Operands are W-bit patterns from a weighted union of constructive generators (uniform, 0/1 bit runs aligned to digit boundaries, extreme digits, boundary values, short values) with the second operand independent or derived from the first (a, -a, !a, a+-1, a+-2^k, shared top digits); each case evaluates every overflow mode (overflowing/checked/wrapping/saturating/strict/unchecked) of the operation against exact arithmetic in an independent reference integer. A case is NON-TRIVIAL when a carry/borrow propagates across at least one digit boundary, or the overflow flag is set, or the exact result is one of MIN-1, MIN, MAX, MAX+1 (for neg: low zero digits; for abs: negative operand). distinct = distinct (build profile, job, inputs) among non-trivial cases, by 64-bit hash. The 8-bit configuration is enumerated completely (see exhaustive_parts). A deterministic SWEEP additionally enumerates, per configuration, position-specific inputs (2^k - 1, 2^k, 2^k + 1 with their negations and complements; carry / borrow chains and power-of-two products ending at every bit position k; every shift / rotate amount; every bit index; every float exponent) - all positions on types up to 1088 bits, a sparse selection of a few hundred positions on wider types in the quick tier, all positions in the thorough tier.",
+            rule: "Operands are W-bit patterns from a weighted union of constructive generators (uniform, 0/1 bit runs aligned to digit boundaries, extreme digits, boundary values, short values) with the second operand independent or derived from the first (a, -a, !a, a+-1, a+-2^k, shared top digits); each case evaluates every overflow mode (overflowing/checked/wrapping/saturating/strict/unchecked) of the operation against exact arithmetic in an independent reference integer. A case is NON-TRIVIAL when a carry/borrow propagates across at least one digit boundary, or the overflow flag is set, or the exact result is one of MIN-1, MIN, MAX, MAX+1 (for neg: low zero digits; for abs: negative operand). distinct = distinct (build profile, job, inputs) among non-trivial cases, by 64-bit hash. The 8-bit configuration is enumerated completely (see exhaustive_parts). A deterministic SWEEP additionally enumerates, per configuration, position-specific inputs (2^k - 1, 2^k, 2^k + 1 with their negations and complements; carry / borrow chains and power-of-two products ending at every bit position k; every shift / rotate amount; every bit index; every float exponent) - all positions on types up to 1088 bits, a sparse selection of a few hundred positions on wider types in the quick tier, all positions in the thorough tier. SIBLINGS job (per configuration): the entry points of this property's own operations that other properties anchor - the six operand forms of the std operators (a op b, &a op b, a op &b, &a op &b, a op= b, a op= &b; for shifts every primitive and bnum-typed amount type), Sum/Product, and the num_traits forwarders - are compared with the inherent method / const twin (same value, same panic outcome), so that a regression confined to one rarely used entry point is reported by the check of the operation it belongs to as well as by C17/C18.",
             assumptions: &[
                 "digits()/from_digits()/to_bits()/from_bits() are the trusted observation channel (their own contract is checked under C13)",
                 "reference integer Z (vlib::refint) is correct: self-tested against i128/u128 and python-generated vectors on every run",
